@@ -60,6 +60,63 @@ theorem translated_shapes_certified :
         "BaseProfile(**{k: v for k, v in self.out_profile.__dict__.items() if not k.startswith('_')}) <- post_processor.solve(out_profile)")] :=
   ⟨by decide, by decide, by decide, by decide, rfl⟩
 
+/-- receivers the velocity solvers of a pass sequence may assign to: the roll passes listed in the sequence itself
+(`for roll_pass, velocity in zip(self.roll_passes, …)`) and arrays they made themselves -/
+def allowedVelReceivers : List String := ["self.roll_passes[*]", "<new array>"]
+
+/-- `PassSequence.solve_velocities_forward` / `solve_velocities_backward` still have the shape `Heap.solveVel` assumes:
+they assign to nothing but the `velocity` of the sequence's own roll passes (`roll_passes` = the `BaseRollPass`es listed
+directly) and local arrays; the caller's profile is handed to `self.solve` as it is and otherwise only read; and these
+two, `solve` and the `init_solve`s it calls are ALL the functions of the package that take an incoming profile (a further
+entry point would have to be modelled first) -/
+theorem translated_velocity_solvers_certified :
+    Gen.C12.velocityWrites.all (fun w => allowedVelReceivers.contains w.2.1) = true ∧
+    (Gen.C12.velocityWrites.filter (fun w => w.2.1 == "self.roll_passes[*]")).all (fun w => w.2.2 == "set.velocity") = true ∧
+    Gen.C12.velocityUses.all (fun e =>
+      ["arg:self.solve(in_profile)", "read:in_profile.cross_section.area"].contains e.2) = true ∧
+    Gen.C12.rollPassesProperty = "list((u for u in self._subunits if isinstance(u, BaseRollPass)))" ∧
+    Gen.C12.profileEntryPoints =
+      ["disk_elements/disk_element_unit.py:DiskElementUnit.init_solve",
+       "roll_pass/base.py:BaseRollPass.init_solve",
+       "sequence/sequence.py:PassSequence.solve_velocities_backward",
+       "sequence/sequence.py:PassSequence.solve_velocities_forward",
+       "unit/unit.py:Unit.init_solve",
+       "unit/unit.py:Unit.solve"] :=
+  ⟨by decide, by decide, by decide, by decide, rfl⟩
+
+/-- the deep copy protocol of the package is what `Heap.copyBody` models: `HookHost.__deepcopy__` enters the memo first,
+then copies EVERY entry - a weak reference through the memo (dead stays dead), anything else (numbers, containers,
+callables given as explicit values …) by `copy.deepcopy(v, memo)`, no entry is kept by reference;
+`_SubUnitsList.__deepcopy__` re-points the owner through the memo and appends the deep copies of ALL items (also of
+none); no other class defines a method of the copy / pickle protocol -/
+theorem translated_deepcopy_certified :
+    Gen.C12.hostDeepcopy =
+      [("", "cls = self.__class__"),
+       ("", "result = cls.__new__(cls)"),
+       ("", "memo[id(self)] = result"),
+       ("for (k, v) in self.__dict__.items() & isinstance(v, weakref.ref)", "t = v()"),
+       ("for (k, v) in self.__dict__.items() & isinstance(v, weakref.ref) & t is None", "new_v = v"),
+       ("for (k, v) in self.__dict__.items() & isinstance(v, weakref.ref) & not (t is None) & id(t) in memo",
+        "new_v = weakref.ref(memo[id(t)])"),
+       ("for (k, v) in self.__dict__.items() & isinstance(v, weakref.ref) & not (t is None) & not (id(t) in memo)",
+        "new_t = copy.deepcopy(t, memo)"),
+       ("for (k, v) in self.__dict__.items() & isinstance(v, weakref.ref) & not (t is None) & not (id(t) in memo)",
+        "new_v = weakref.ref(new_t)"),
+       ("for (k, v) in self.__dict__.items() & not (isinstance(v, weakref.ref))", "new_v = copy.deepcopy(v, memo)"),
+       ("for (k, v) in self.__dict__.items()", "setattr(result, k, new_v)"),
+       ("", "return result")] ∧
+    Gen.C12.listDeepcopy =
+      [("", "cls = self.__class__"),
+       ("", "result = cls.__new__(cls)"),
+       ("", "o = self._owner()"),
+       ("id(o) in memo", "result._owner = weakref.ref(memo[id(o)])"),
+       ("not (id(o) in memo)", "result._owner = weakref.ref(copy.deepcopy(o, memo))"),
+       ("for e in self", "result.append(copy.deepcopy(e, memo))"),
+       ("", "return result")] ∧
+    Gen.C12.copyProtocolDefs =
+      ["hooks.py:HookHost.__copy__", "hooks.py:HookHost.__deepcopy__", "unit/unit.py:Unit._SubUnitsList.__deepcopy__"] :=
+  ⟨rfl, rfl, rfl⟩
+
 /-! ## a concrete state for the non-vacuity examples
 
   0,1  cross-section and classifier set of the caller's profile 2;   3 groove classifiers, 4 groove, 5 roll template;
@@ -526,5 +583,106 @@ theorem keep_form_leaks : ¬ ReusedOutCurrentAfterSolve .keep := by
     10 (by decide) (by decide)
   revert this
   decide
+
+/-! ## 7. the velocity solvers of a pass sequence are solve entry points like `solve`
+
+`PassSequence.solve_velocities_forward(in_profile, initial_speed)` / `solve_velocities_backward(in_profile, …)` take the
+caller's profile, set `velocity` on the roll passes listed in the sequence and call `self.solve(in_profile)` repeatedly
+(`Heap.solveVel`; that the source has this shape is `translated_velocity_solvers_certified`). -/
+
+/-- every write of a velocity solver - any number of rounds - targets an object it allocated or one the sequence owns -/
+theorem velocity_solver_writes_only_owned (n : Nat) (s : S) (u p : Nat) (w : Wf s.h) (hu : u < s.h.next)
+    (hp : p < s.h.next) :
+    ∃ t, (solveVel P n s u p).tr = s.tr ++ t ∧ ∀ o ∈ targets t, s.h.next ≤ o ∨ Owned s.h u o :=
+  (solveVel_spec P model_producers_safe n s u p w hu hp).tr
+
+theorem velocity_solver_frame (n : Nat) (s : S) (u p : Nat) (w : Wf s.h) (hu : u < s.h.next) (hp : p < s.h.next)
+    (o : Nat) (ho : o < s.h.next) (hn : ¬ Owned s.h u o) : (solveVel P n s u p).h.obj o = s.h.obj o :=
+  (solveVel_spec P model_producers_safe n s u p w hu hp).frame o ho hn
+
+/-- never the caller's profile (whatever the first unit of the line is, whether or not the profile has a velocity), a
+groove, a roll template, a value, a callable: unchanged in every component (entries, cache), named by no effect -/
+theorem velocity_solver_never_touches_inputs (n : Nat) (s : S) (u p : Nat) (g : Good s) (hu : u < s.h.next)
+    (hp : p < s.h.next) (hk : (s.h.obj u).kind = .unit) (q : Nat) (hq : q < s.h.next)
+    (hs : stableKind (s.h.obj q).kind) :
+    (solveVel P n s u p).h.obj q = s.h.obj q ∧
+    ∀ t, (solveVel P n s u p).tr = s.tr ++ t → q ∉ targets t := by
+  have hno : ¬ Owned s.h u q := fun ho => stable_not_owned hs (ho.kind g.typed hk)
+  refine ⟨velocity_solver_frame n s u p g.wf hu hp q hq hno, ?_⟩
+  intro t ht hmem
+  obtain ⟨t', ht', hok⟩ := velocity_solver_writes_only_owned n s u p g.wf hu hp
+  have : t = t' := List.append_cancel_left (ht.symm.trans ht')
+  subst this
+  rcases hok q hmem with h | h
+  · omega
+  · exact hno h
+
+/-- …and a second run with the SAME profile object starts from the same profile: whatever the first run did, the
+profile it is handed is the object the caller built (histories: `earlier_profiles_stable` has `Op.solveVel`) -/
+theorem velocity_solver_reuse_of_profile (n m : Nat) (s : S) (u u' p : Nat) (g : Good s)
+    (hp : p < s.h.next) (hs : stableKind (s.h.obj p).kind) :
+    (run P s [.solveVel u p n, .solveVel u' p m]).h.obj p = s.h.obj p :=
+  earlier_profiles_stable _ s g p hp hs
+
+-- non-vacuity: the example sequence 11 (pass 6, transport 9) run through a velocity solver with 2 rounds and the
+-- caller's profile 2: among the objects that existed, written are 6 (velocity, solve), its roll 8, 11 and 9; the pass
+-- has a velocity; the caller's profile 2, its values 0 / 1, the groove 4 and the template 5 are what they were
+def ex0v : S := { ex0 with its := [2, 1, 1, 1, 1, 1, 1, 1, 1, 2, 1, 1, 1, 1, 1, 1, 1, 1] }
+set_option maxRecDepth 100000 in
+example : ((targets ((solveVel P 2 ex0v 11 2).tr.drop ex0.tr.length)).filter (· < ex0.h.next)).eraseDups = [6, 8, 11, 9] ∧
+    (getF (solveVel P 2 ex0v 11 2).h 6 fUVEL).isSome = true ∧ getF ex0.h 6 fUVEL = none ∧
+    (solveVel P 2 ex0v 11 2).its = [] ∧
+    [0, 1, 2, 3, 4, 5].all (fun q => decide ((solveVel P 2 ex0v 11 2).h.obj q = ex0.h.obj q)) = true := by decide
+
+/-! ## 8. callables given as explicit values (bound methods of other units, `functools.partial`, callable objects)
+
+An explicit value may be a callable that refers to another object of the same graph (`Transport(duration=
+first_pass.pause_after)`, `gap=partial(same_gap_as, first_pass)`): an object of kind `closure` holding a reference.
+`deepcopy_disjoint_and_closed` speaks of EVERYTHING reachable, so it covers them; spelled out: -/
+
+/-- every callable reachable from a deep copy is an object made by this copy, and what it is bound to is made by this
+copy as well (or an immutable atom): the copy's links follow the copy's own units, never the original's -/
+theorem deepcopy_rebinds_callables (s : S) (w : Wf s.h) (o : Nat) (ho : o < s.h.next) (x f c g t : Nat) :
+    let r := deepCopy s o
+    Reach r.1.h r.2.2 x → (r.1.h.obj x).kind ≠ .atom → getF r.1.h x f = some c → (r.1.h.obj c).kind = .closure →
+    getF r.1.h c g = some t →
+    s.h.next ≤ c ∧ (s.h.next ≤ t ∨ (s.h.obj t).kind = .atom) := by
+  intro r hx hxa hc hk ht
+  obtain ⟨hframe, _, _, _, hcl, _⟩ := deepcopy_disjoint_and_closed s w o ho
+  have rc : Reach r.1.h r.2.2 c := Reach.step hx hxa (getF_mem_ptrs hc)
+  have hca : (r.1.h.obj c).kind ≠ .atom := by rw [hk]; decide
+  have rt : Reach r.1.h r.2.2 t := Reach.step rc hca (getF_mem_ptrs ht)
+  refine ⟨?_, hcl t rt⟩
+  rcases hcl c rc with h | h
+  · exact h
+  · apply Nat.le_of_not_lt
+    intro hlt
+    have e : (r.1.h.obj c).kind = (s.h.obj c).kind := by rw [hframe c hlt]
+    rw [← e, hk] at h
+    cases h
+
+/-- a solve - and a velocity solver, and any history - leaves a callable and what it refers to alone (kind `closure`
+is owned by nobody): instance of `solve_never_touches_inputs` -/
+theorem solve_leaves_callables (fuel : Nat) (s : S) (u p : Nat) (g : Good s) (hu : u < s.h.next) (hp : p < s.h.next)
+    (hk : (s.h.obj u).kind = .unit) (c : Nat) (hc : c < s.h.next) (hkc : (s.h.obj c).kind = .closure) :
+    (solveU P fuel s u p).1.h.obj c = s.h.obj c :=
+  (solve_never_touches_inputs fuel s u p g hu hp hk c hc
+    (Or.inr (Or.inr (Or.inr (Or.inr (Or.inr (Or.inr hkc))))))).1
+
+-- non-vacuity: in the solved example the transport 9 gets `duration` (entry 43) = a callable bound to the pass 6
+-- (history op `bind`); the deep copy of the sequence 11 has, in the copy of 9, a NEW callable bound to the COPY of 6,
+-- and the original callable is what it was
+def exB : S := run P ex1 [.bind 9 43 6]
+def exBc : S × Memo × Nat := deepCopy exB 11
+set_option maxRecDepth 100000 in
+example :
+    let k := (getF exB.h 9 43).getD 0
+    let c9 := (exBc.2.1.lookup 9).getD 0
+    let c6 := (exBc.2.1.lookup 6).getD 0
+    let k' := (getF exBc.1.h c9 43).getD 0
+    (exB.h.obj k).kind = .closure ∧ getF exB.h k fBIND = some 6 ∧
+    exB.h.next ≤ c9 ∧ exB.h.next ≤ c6 ∧ exB.h.next ≤ k' ∧ (exBc.1.h.obj k').kind = .closure ∧
+    getF exBc.1.h k' fBIND = some c6 ∧ exBc.1.h.obj k = exB.h.obj k ∧
+    (exBc.1.h.obj c6).weak = some exBc.2.2 := by decide
 
 end C12
